@@ -554,6 +554,32 @@ impl Ranking {
                 planted_store = Some(st0);
             }
         }
+        set_record_langs(&[]);
+        let mut foreign_twin: Option<(usize, &'static str)> = None;
+        if planted_store.is_none() && (cx.idx / 12) % 6 == 4 {
+            // one store in six holds a record twice: the second copy (other id, other rating) was prepared by the caller with
+            // ANOTHER language than the store's - same letters, other character classes, perhaps another stem - and stands right
+            // behind or right before its twin. A record's place depends on the record and the query, not on its neighbour.
+            let k = cx.rng.below(recs.len());
+            let tl: &'static str = if base_lang(lang) == "none" || lang == "xs" { *cx.rng.pick(&["en", "de", "ru", "fr"]) } else { *cx.rng.pick(&["none", "none", "xs", "en", "ru"]) };
+            if tl != lang {
+                let mut id = recs.iter().map(|r| r.0).max().unwrap_or(0).wrapping_add(1);
+                while recs.iter().any(|r| r.0 == id) {
+                    id = id.wrapping_add(1);
+                }
+                let mut rating = recs[k].2 ^ 1;
+                while recs.iter().any(|r| r.2 == rating) {
+                    rating = rating.wrapping_add(2);
+                }
+                let twin: Rec = (id, recs[k].1.clone(), rating);
+                let at = if cx.rng.chance(1, 2) { k } else { k + 1 };
+                recs.insert(at, twin);
+                limit = limit.max((recs.len() + 9) / 10);
+                foreign_twin = Some((id, tl));
+                set_record_langs(&[(id, tl)]);
+                cx.count("stores holding a record twice, the second copy prepared by another language");
+            }
+        }
         let n = recs.len();
         let st = if let Some(st0) = planted_store.take() { st0 } else if staged { build_staged(cx, lang, &recs, limit, "") } else { St::build_sentinel(lang, &recs, limit) };
         let unl = St::build_sentinel(lang, &recs, n + 1);
@@ -580,7 +606,7 @@ impl Ranking {
             } else {
                 q
             };
-            cx.ctx(format!("C07 lang={} recs={:?} limit={} q={:?}", lang, recs, limit, q));
+            cx.ctx(format!("C07 lang={} recs={:?} limit={} q={:?}{}", lang, recs, limit, q, foreign_twin.map(|(id, l)| format!(" (record {} was prepared by language {})", id, l)).unwrap_or_default()));
             if let Some(o) = &other {
                 // the same records and query under another language, on this thread, right before the judged search
                 let _ = o.search(&q);
@@ -655,6 +681,7 @@ impl Ranking {
                 }
             }
         }
+        set_record_langs(&[]);
     }
 
     fn rules(&self, cx: &mut Cx, lang: &'static str) {
@@ -804,6 +831,17 @@ impl Ranking {
                 }
                 let r = cx.rng.below(1usize << 31);
                 self.rule_case(cx, lang, "equal rating: shorter title first", &u, &u, &format!("{} {}", u, x), r, r, order);
+                // the last two rules name no query: they are also judged by the empty query (which lists records by rating, then
+                // title), on a store that answered the empty query while the better record was not there yet
+                let mut r2 = Rng::new(mix(cx.idx, 0xc08 + order as u64));
+                if order == 0 {
+                    self.rule_empty_query_case(cx, &mut r2, lang, "equal rating: shorter title first (empty query)", &u, &format!("{} {}", u, x), r, r);
+                } else {
+                    let t = if r2.chance(1, 2) { u.clone() } else { format!("{} {}", u, x) };
+                    let lo = r2.below((1usize << 31) - 4);
+                    let hi = lo + r2.range(1, 3);
+                    self.rule_empty_query_case(cx, &mut r2, lang, "identical titles: rating decides (empty query)", &t, &t, hi, lo);
+                }
             }
         } else {
             cx.count("word triple rejected (function word)");
@@ -896,6 +934,43 @@ impl Ranking {
         }
     }
 
+    /// 'worse' (and sometimes a better-rated bystander) first, the empty query under a limit that the store already fills,
+    /// then 'better', then the empty query again: 'better' precedes 'worse' (or 'worse' is no longer listed).
+    fn rule_empty_query_case(&self, cx: &mut Cx, rng: &mut Rng, lang: &'static str, rule: &str, better: &str, worse: &str, rb: usize, rw: usize) {
+        let bystander = rng.chance(1, 2);
+        let limit = if bystander { *rng.pick(&[2usize, 2, 3, 10]) } else { *rng.pick(&[1usize, 1, 2, 10]) };
+        let mut st = St::sentinel(lang, limit);
+        let mut recs: Vec<Rec> = vec![];
+        if bystander {
+            recs.push((3, format!("y{}", rng.below(10)), (rw.max(rb) + 1 + rng.below(5)).min((1usize << 31) - 1)));
+        }
+        recs.push((2, worse.to_string(), rw));
+        for r in &recs {
+            st.add(r);
+        }
+        let q1 = *rng.pick(&["", " ", "-"]);
+        cx.ctx(format!("C08 {} lang={} recs={:?} limit={} q={:?} (before the better record arrives)", rule, lang, recs, limit, q1));
+        let before = st.search_ids(q1);
+        let b: Rec = (1, better.to_string(), rb);
+        st.add(&b);
+        recs.push(b);
+        let q2 = *rng.pick(&["", " ", "-"]);
+        cx.ctx(format!("C08 {} lang={} recs={:?} limit={} q={:?}", rule, lang, recs, limit, q2));
+        let got = st.search(q2);
+        cx.eval();
+        cx.count(&format!("rule {}", rule));
+        cx.count("rules judged by the empty query on a store that answered it before the better record arrived");
+        cx.key(hparts(&[lang, rule, better, worse, &limit.to_string()]));
+        if !crate::oracle::outranks(&got, 1, 2) || !got.iter().any(|h| h.0 == 1) {
+            cx.fail_sig(
+                "ranking-rule",
+                format!("ranking-rule:{}", rule.replace(' ', "_")),
+                json!({"rule": rule, "lang": lang, "query": q2, "records_in_insertion_order": recs, "limit": limit, "expected_first_id": 1, "got": got,
+                       "history": format!("the empty query {:?} was answered ({:?}) before record 1 was added", q1, before)}),
+            );
+        }
+    }
+
     fn rule_case(&self, cx: &mut Cx, lang: &'static str, rule: &str, q: &str, better: &str, worse: &str, rb: usize, rw: usize, order: usize) {
         let mut recs: Vec<Rec> = if order == 0 { vec![(1, better.to_string(), rb), (2, worse.to_string(), rw)] } else { vec![(2, worse.to_string(), rw), (1, better.to_string(), rb)] };
         if cx.rng.chance(1, 4) {
@@ -966,8 +1041,16 @@ impl Ranking {
     }
 
     fn empty(&self, cx: &mut Cx, lang: &'static str) {
-        let words = ["metal", "mailbox", "b", "a", "aa", "ab", "Zed", "für", "élan", "Ёж", "éclair", "e\u{301}clair", "zz", "straße", "strasse",
+        let ordinary: [&str; 23] = ["metal", "mailbox", "b", "a", "aa", "ab", "Zed", "für", "élan", "Ёж", "éclair", "e\u{301}clair", "zz", "straße", "strasse",
             "𠮷野家", "吉野家", "𐌰𐌱", "🎁x", "ﬁx", "ab𝐀", "abc𠮷", "abcd"];
+        // one store in eight draws its titles from spellings that differ in where a U+0000 (or another control character) sits:
+        // U+0000 is the smallest code point and counts in the code-point order of the normalised title like any other character
+        let with_nul: [&str; 14] = ["a\0b", "aab", "ab", "a\0", "a", "a\0\0b", "aa", "a\0a", "\0a", "b\0", "a b", "a\u{1}b", "a\0 b", "a\tb"];
+        let nul_titles = (cx.idx / 12) % 8 == 5;
+        if nul_titles {
+            cx.count("stores whose titles differ in where a U+0000 sits");
+        }
+        let words: &[&str] = if nul_titles { &with_nul } else { &ordinary };
         let n = match cx.rng.below(60) {
             0 => *cx.rng.pick(&[200usize, 257, 300, 600, 1200]),
             1..=10 => cx.rng.range(13, 60),
@@ -995,7 +1078,7 @@ impl Ranking {
             let lead = if rng.chance(1, 6) { *rng.pick(&[" ", "'", "(", "- ", "\u{bf}", "\"", "#", "\u{2026}", "  "]) } else { "" };
             // ... and one in six ends with such characters (a title and its whitespace-extended twin are different titles)
             let trail = if rng.chance(1, 6) { *rng.pick(&[" ", "  ", "\t", "\n", " .", "!"]) } else { "" };
-            let t = format!("{}{}{}{}{}{}", lead, common, rng.pick(&words), if rng.chance(1, 2) { " " } else { "" }, if rng.chance(1, 2) { *rng.pick(&words) } else { "" }, trail);
+            let t = format!("{}{}{}{}{}{}", lead, common, rng.pick(words), if rng.chance(1, 2) { " " } else { "" }, if rng.chance(1, 2) { *rng.pick(words) } else { "" }, trail);
             // one title in twelve has no word at all (it still has a place in the code-point order of titles)
             let t = if rng.chance(1, 12) { rng.pick(&["", "---", "!!!", " ", "...", "-", "(", "--- !!!"]).to_string() } else { t };
             (i, t, (if distinct { i * 3 + rng.below(3) } else { rng.below(3) }) * rating_scale + rating_offset)
@@ -1035,7 +1118,7 @@ impl Ranking {
             }
             if cx.rng.chance(1, 3) {
                 // a search with words in between changes neither the records nor the limit
-                let w = *cx.rng.pick(&words);
+                let w = *cx.rng.pick(words);
                 let _ = st.search(w);
                 if cx.rng.chance(1, 2) {
                     let _ = st.search(&w.chars().take(1).collect::<String>());
@@ -1215,8 +1298,8 @@ impl Prop for Ranking {
     fn rule(&self) -> &'static str {
         match self.0 {
             Which::Verdicts => "fresh stores of 1-65 records from a small repetitive vocabulary (many records match one query), limits 0..|store|+2, 3 queries each (empty, 1-2 letters, related, multi-word, typo); checks: <= limit hits, no id twice, every hit identical to the single hit of the one-record store; for |store| <= 10*limit: hits == first `limit` of the unlimited list (exact order with distinct ratings, set comparison with ties) and unlimited id set == records that hit alone. Non-trivial = search with >= 1 match; distinct by (language, store, query, limit)",
-            Which::Order => "stores of 2-30 records with pairwise distinct ratings and |store| <= 10*limit; for the first 6 hits of the unlimited list every pair is re-run as a two-record store in both insertion orders; the whole store is re-built reversed and in 3 random orders and must return the identical list. Non-trivial = search with >= 2 hits; distinct by (language, store, query)",
-            Which::Rules => "two-record stores, both insertion orders, ratings (low,high) and (high,low) from [0,2^31); words u, v (5-9 letters), filler x from pairwise disjoint alphabets, checked to be non-function words; rules: exact>typo, both>one, exact>tail (full word and prefix), adjacent>gap, first>second, identical titles by rating, equal rating shorter first, function word f: f+suffix before a title containing f. A case is one (language, rule, query, better title, worse title)",
+            Which::Order => "stores of 2-30 records with pairwise distinct ratings and |store| <= 10*limit; for the first 6 hits of the unlimited list every pair is re-run as a two-record store in both insertion orders; the whole store is re-built reversed and in 3 random orders and must return the identical list; one store in six holds a title twice, the second copy prepared with another language than the store's. Non-trivial = search with >= 2 hits; distinct by (language, store, query)",
+            Which::Rules => "two-record stores, both insertion orders, ratings (low,high) and (high,low) from [0,2^31); words u, v (5-9 letters), filler x from pairwise disjoint alphabets, checked to be non-function words; rules: exact>typo, both>one, exact>tail (full word and prefix), adjacent>gap, first>second, identical titles by rating, equal rating shorter first (these two also by the empty query), function word f: f+suffix before a title containing f. A case is one (language, rule, query, better title, worse title)",
             Which::Empty => "stores of 0-12 records (ratings from {0,1,2} with many ties, or distinct), duplicate and accented titles, limits 0..n+2, separator-only queries, searched again after further adds on the same store; checks: length min(limit,n), no highlight, no id twice, ratings non-increasing, no omitted record better than a listed one (rating, then code-point order of the normalised title), exact order with distinct ratings. Distinct by (language, store, limit, query), non-trivial = store with >= 2 records",
         }
     }
@@ -1231,9 +1314,9 @@ impl Prop for Ranking {
     fn floors(&self) -> Vec<(&'static str, u64, u64)> {
         match self.0 {
             Which::Verdicts => vec![("truncated (more matches than limit)", 200, 2000), ("beyond the 10x cap (soundness only)", 100, 1000), ("limit 0", 50, 500), ("selection buffer refilled (matches >= 2*limit)", 100, 1000), ("store with tied ratings (set comparison)", 50, 500), ("empty query", 50, 500), ("corpus-store searches", 100, 2000), ("corpus-store searches compared with the unlimited corpus store", 10, 200), ("large stores (limit 50-200)", 400, 8000), ("large stores whose match count is an exact multiple of the limit", 20, 400), ("stores of more than 2048 records", 8, 160), ("stores of 66-260 records", 300, 3000), ("stores built in stages with searches and limit changes in between", 3000, 30000), ("configurations whose reference stores live on threads of their own", 1500, 15000), ("stores of 33 000 - 140 000 records with one title", 8, 48), ("stores of exactly 10*limit records sharing one word", 100, 1000)],
-            Which::Order => vec![("pair stores", 2000, 20000), ("permuted stores", 2000, 20000), ("searches with >= 2 hits", 300, 3000), ("truncated lists compared across permutations", 30, 300), ("stores of similar words", 500, 5000), ("pairs involving a hit ranked 7th or lower", 300, 3000), ("large stores (limit 50-200)", 200, 4000), ("stores of more than 2048 records", 4, 80), ("stores with ratings in [2^31, 2^32)", 200, 2000), ("stores with ratings spread over the whole usize range", 100, 1000), ("stores with pairs of ratings that differ in exactly one bit", 150, 1500), ("configurations whose reference stores live on threads of their own", 200, 2000), ("stores built in stages with searches and limit changes in between", 300, 3000), ("stores shadowed by a store of another language on the same thread", 500, 5000), ("stores whose past holds an over-cap search that left a gram-free fuzzy match behind", 50, 500)],
-            Which::Rules => vec![("rule exact>typo", 500, 5000), ("rule both>one", 500, 5000), ("rule prefix: exact>tail", 500, 5000), ("rule adjacent>gap", 500, 5000), ("rule first>second", 500, 5000), ("rule identical titles: rating decides", 300, 3000), ("rule equal rating: shorter title first", 300, 3000), ("rule function word: content word first", 1000, 10000), ("u made of two function words run together", 300, 3000), ("rule cases with a third, unrelated record", 20000, 200000), ("identical titles with ratings 1-3 apart", 1000, 10000), ("tails of 13-70 letters", 500, 5000), ("u tagged with a part of speech that is not a function-word kind", 150, 1500), ("rule cases on stores with several copies of both titles", 5000, 50000)],
-            Which::Empty => vec![("searches after further adds", 1000, 10000), ("truncated lists with tied ratings", 500, 5000), ("stores with distinct ratings", 500, 5000), ("limit 0", 100, 1000), ("stores of 13-60 records", 1000, 10000), ("stores whose titles share a prefix of 20-40 characters", 1500, 15000), ("stores with adjacent ratings above 2^24", 1000, 10000), ("searches after a limit change", 1000, 10000), ("adds under a temporarily lowered limit", 1000, 10000), ("empty-query searches right after a search with words", 5000, 50000), ("empty-query lists read through the registry", 3000, 30000), ("registry stores whose limit was written through using_store", 2000, 20000), ("empty-query lists of stores with more than 2^18 records under a limit above 2^17", 4, 32)],
+            Which::Order => vec![("pair stores", 2000, 20000), ("permuted stores", 2000, 20000), ("searches with >= 2 hits", 300, 3000), ("truncated lists compared across permutations", 30, 300), ("stores of similar words", 500, 5000), ("pairs involving a hit ranked 7th or lower", 300, 3000), ("large stores (limit 50-200)", 200, 4000), ("stores of more than 2048 records", 4, 80), ("stores with ratings in [2^31, 2^32)", 200, 2000), ("stores with ratings spread over the whole usize range", 100, 1000), ("stores with pairs of ratings that differ in exactly one bit", 150, 1500), ("configurations whose reference stores live on threads of their own", 200, 2000), ("stores built in stages with searches and limit changes in between", 300, 3000), ("stores shadowed by a store of another language on the same thread", 500, 5000), ("stores whose past holds an over-cap search that left a gram-free fuzzy match behind", 50, 500), ("stores holding a record twice, the second copy prepared by another language", 100, 1000)],
+            Which::Rules => vec![("rule exact>typo", 500, 5000), ("rule both>one", 500, 5000), ("rule prefix: exact>tail", 500, 5000), ("rule adjacent>gap", 500, 5000), ("rule first>second", 500, 5000), ("rule identical titles: rating decides", 300, 3000), ("rule equal rating: shorter title first", 300, 3000), ("rule function word: content word first", 1000, 10000), ("u made of two function words run together", 300, 3000), ("rule cases with a third, unrelated record", 20000, 200000), ("identical titles with ratings 1-3 apart", 1000, 10000), ("tails of 13-70 letters", 500, 5000), ("u tagged with a part of speech that is not a function-word kind", 150, 1500), ("rule cases on stores with several copies of both titles", 5000, 50000), ("rules judged by the empty query on a store that answered it before the better record arrived", 4000, 40000)],
+            Which::Empty => vec![("searches after further adds", 1000, 10000), ("truncated lists with tied ratings", 500, 5000), ("stores with distinct ratings", 500, 5000), ("limit 0", 100, 1000), ("stores of 13-60 records", 1000, 10000), ("stores whose titles share a prefix of 20-40 characters", 1500, 15000), ("stores with adjacent ratings above 2^24", 1000, 10000), ("searches after a limit change", 1000, 10000), ("adds under a temporarily lowered limit", 1000, 10000), ("empty-query searches right after a search with words", 5000, 50000), ("empty-query lists read through the registry", 3000, 30000), ("registry stores whose limit was written through using_store", 2000, 20000), ("empty-query lists of stores with more than 2^18 records under a limit above 2^17", 4, 32), ("stores whose titles differ in where a U+0000 sits", 800, 8000)],
         }
     }
     fn ratios(&self) -> Vec<(&'static str, &'static str, f64, f64)> {
